@@ -316,6 +316,89 @@ def pointC (dflt : K) (s : Sys K) (ptype : String) (pos : Option (V3 K)) (ptd : 
     | none => .error .value
   else .error .value
 
+/-! ### source-level primitives
+
+  One definition per statement kind of `point.py`.  `Generated/PointSource.lean` (regenerated from the
+  current source with `ast` on every check) is written in terms of these, and `Proofs/C15_Source.lean`
+  proves each regenerated function equal to the hand model above (`gen_…_eq_model`). -/
+
+/-- the literal of `uc.set_in_units(0.01, 'angstrom')` as (numerator, denominator, unit), per function. -/
+def dfltLiterals : List (String × Nat × Nat × String) :=
+  [("vacancy", 1, 100, "angstrom"), ("interstitial", 1, 100, "angstrom"),
+   ("substitutional", 1, 100, "angstrom"), ("dumbbell", 1, 100, "angstrom")]
+
+/-- the signatures the model's entry points (and the driver's positional call forms) assume:
+    (function, [(parameter, default as written; "" = required)]), `**kwargs` as ("**kwargs", ""). -/
+def signatures : List (String × List (String × String)) :=
+  [("point", [("system", ""), ("ptd_type", "'v'"), ("pos", "None"), ("ptd_id", "None"), ("db_vect", "None"),
+              ("scale", "False"), ("atol", "None"), ("**kwargs", "")]),
+   ("vacancy", [("system", ""), ("pos", "None"), ("ptd_id", "None"), ("scale", "False"), ("atol", "None")]),
+   ("interstitial", [("system", ""), ("pos", ""), ("scale", "False"), ("atol", "None"), ("**kwargs", "")]),
+   ("substitutional", [("system", ""), ("pos", "None"), ("ptd_id", "None"), ("atype", "1"), ("scale", "False"),
+                       ("atol", "None"), ("**kwargs", "")]),
+   ("dumbbell", [("system", ""), ("pos", "None"), ("ptd_id", "None"), ("db_vect", "None"), ("scale", "False"),
+                 ("atol", "None"), ("**kwargs", "")])]
+
+/-- the exception class of every `raise` / `assert` of a function, in source order. -/
+def raiseClasses : List (String × List String) :=
+  [("point", ["AssertionError", "AssertionError", "AssertionError", "AssertionError", "AssertionError", "ValueError"]),
+   ("vacancy", ["ValueError", "ValueError", "ValueError", "ValueError", "TypeError"]),
+   ("interstitial", ["ValueError", "ValueError"]),
+   ("substitutional", ["ValueError", "ValueError", "ValueError", "ValueError", "ValueError", "ValueError"]),
+   ("dumbbell", ["ValueError", "ValueError", "ValueError", "ValueError", "ValueError"])]
+
+/-- `len(kwargs)`. -/
+def Kw.count {K : Type} (kw : Kw K) : Nat :=
+  (if kw.atype.isSome then 1 else 0) + (if kw.oldId.isSome then 1 else 0) + kw.extra.length
+
+/-- `system.atoms.atype[i]` (`i` already normalised). -/
+def atypeAt (s : Sys K) (i : Nat) : Except Err Int :=
+  match s.atoms[i]? with
+  | some a => .ok a.atype
+  | none => .error .index
+
+/-- `System(box=deepcopy(system.box), pbc=deepcopy(system.pbc), atoms=deepcopy(system.atoms[index]),
+    symbols=system.symbols, masses=system.masses)`: the rows `index` of every per-atom array (an
+    existing `old_id` column included), same cell; an index beyond the atoms is an IndexError, an empty
+    Atoms cannot be wrapped in a System. -/
+def sliced (s : Sys K) (idx : List Nat) : Except Err (Sys K) :=
+  if idx.any (fun i => decide (s.atoms.length ≤ i)) then .error .index
+  else if idx.isEmpty then .error .value
+  else .ok { s with atoms := gather s.atoms idx, old := s.old.map (gather · idx) }
+
+/-- `'old_id' in d_system.atoms_prop()`. -/
+def hasOldId (d : Sys K) : Bool := d.old.isSome
+
+/-- `d_system.atoms.old_id = index`. -/
+def setOldColumn (d : Sys K) (idx : List Nat) : Sys K := { d with old := some (idx.map Int.ofNat) }
+
+/-- `d_system.atoms.atype[-1] = f (current)`. -/
+def setLastAtype (d : Sys K) (f : Int → Int) : Sys K :=
+  { d with atoms := setLast d.atoms fun a => { a with atype := f a.atype } }
+
+/-- `d_system.atoms.pos[-1] = f (current)` (also `+=`). -/
+def setLastPos (d : Sys K) (f : V3 K → V3 K) : Sys K :=
+  { d with atoms := setLast d.atoms fun a => { a with pos := f a.pos } }
+
+/-- `d_system.atoms.pos[-2] = f (current)` (`-=`). -/
+def setLast2Pos (d : Sys K) (f : V3 K → V3 K) : Sys K :=
+  { d with atoms := setLast2 d.atoms fun a => { a with pos := f a.pos } }
+
+/-- `d_system.atoms.old_id[-1] = f (whole column) (current)`. -/
+def setLastOld (d : Sys K) (f : List Int → Int → Int) : Sys K :=
+  { d with old := d.old.map fun col => setLast col (f col) }
+
+/-- the `else:` branch of the per-property loop run for every extra property:
+    `d_system.atoms.view[prop][-1] = kwargs.pop(prop, dflt(current))`. -/
+def setLastExtras (d : Sys K) (kw : Kw K) (dflt : List K → List K) : Sys K :=
+  { d with atoms := setLast d.atoms fun a => { a with props := overrideProps d.keys a.props kw.extra dflt } }
+
+/-- `d_system.atoms.atype[-1]`. -/
+def lastAtype (d : Sys K) : Except Err Int :=
+  match d.atoms.getLast? with
+  | some a => .ok a.atype
+  | none => .error .index
+
 /-! ### histories: sequences of insertions with the provenance of every atom -/
 
 inductive Op (K : Type)
